@@ -31,7 +31,7 @@ func init() {
 			{Name: "send-best-effort", Mode: "enum", Bound: b, Reset: kit.ResetGlobals, Body: func() { sendModes("besteffort") },
 				NeedCounters: []string{"best-effort-returned-at-once", "best-effort-dropped"}},
 			{Name: "fail-no-peers", Mode: "enum", Bound: b, Reset: kit.ResetGlobals, Body: failNoPeers,
-				NeedCounters: []string{"nopeers-at-call", "nopeers-when-last-peer-leaves", "one-of-two-peers-leaves"}},
+				NeedCounters: []string{"nopeers-at-call", "nopeers-when-last-peer-leaves", "one-of-two-peers-leaves", "peers-come-and-go"}},
 		}
 	})
 }
@@ -358,7 +358,7 @@ func FailNoPeers() { failNoPeers() }
 
 func failNoPeers() {
 	k := pickKind()
-	variant := kit.ChooseFree(5)
+	variant := kit.ChooseFree(6)
 	var x *kinds.Sock
 	if variant == 0 {
 		x = k.Open("c18f", false, true)
@@ -423,6 +423,31 @@ func failNoPeers() {
 			kit.Failf("nopeers-recv-leave:"+k.Name, "%s: the last peer left while Recv waited: done=%v %s, want ErrNoPeers at that instant", k.Name, c.Done(), kit.ErrName(c.Err))
 		}
 		kit.Count("nopeers-when-last-peer-leaves")
+	case 5: // peers come and go twice: no peer -> ErrNoPeers at once, a peer -> the call works
+		x.P.Hold(false)
+		for round := 0; round < 2; round++ {
+			if k.CanSend {
+				x.PrepSend()
+				c := kit.Start("Send", func() (interface{}, error) { return nil, x.Send(fmt.Sprintf("with-peer-%d", round)) })
+				kit.Quiesce()
+				if !c.Done() || c.Err != nil {
+					kit.Failf("nopeers-with-a-peer-connected:"+k.Name, "%s, round %d: a peer is connected and takes everything, Send: done=%v %s", k.Name, round, c.Done(), kit.ErrName(c.Err))
+				}
+			}
+			x.P.DropNow()
+			kit.Quiesce()
+			if k.CanSend {
+				c := kit.Start("Send", func() (interface{}, error) { return nil, x.Send("nobody-there") })
+				kit.Quiesce()
+				if !c.Done() || (c.Err != mangos.ErrNoPeers && c.Err != mangos.ErrProtoState) || c.T1 != c.T0 {
+					kit.Failf("nopeers-send:"+k.Name, "%s, round %d: the only peer left, Send: done=%v %s, want ErrNoPeers at once", k.Name, round, c.Done(), kit.ErrName(c.Err))
+				}
+			}
+			x.P = x.EP.Connect()
+			x.P.Hold(false)
+			kit.Quiesce()
+		}
+		kit.Count("peers-come-and-go")
 	case 3: // one of two peers leaves while a Send waits: a peer is still connected, nothing fails
 		if !k.CanSend {
 			return
